@@ -175,6 +175,27 @@ fn c07_type<P: KS>(out: &mut Out, seed: u64, tier: &Tier, counter: &mut usize) {
     }
 }
 
+/// large k: interval lengths beyond 255 (a narrower `len` field would show)
+fn c07_bigk<P: KS>(out: &mut Out, seed: u64, tier: &Tier, counter: &mut usize) {
+    let reps = if tier.thorough { 6 } else { 1 };
+    for &k in &[140usize, 300] {
+        for kind in 0..NKINDS {
+            for _ in 0..reps {
+                *counter += 1;
+                if *counter % tier.nshards != tier.shard {
+                    continue;
+                }
+                let mut rng = Rng::new(seed ^ (*counter as u64).wrapping_mul(0x9E37_79B9_7F4A_7C15));
+                let len = rng.range(2 * k, 3 * k);
+                let seq = gen_seq(&mut rng, len);
+                let salt = rng.next();
+                let f = score_fn::<P>(kind, salt);
+                emit_case::<P>(out, &seq, k, &*f, rng.below(3), "chk.scan", true);
+            }
+        }
+    }
+}
+
 /// simple_scan with an explicit permutation table (small p only: the table is part of the case line)
 fn c07_simple<P: KS>(out: &mut Out, seed: u64, tier: &Tier, counter: &mut usize) {
     let p = P::k();
@@ -227,6 +248,8 @@ pub fn c07(out: &mut Out, rng: &mut Rng, tier: &Tier) {
     c07_type::<Kmer10>(out, seed, tier, &mut counter);
     c07_type::<Kmer12>(out, seed, tier, &mut counter);
     c07_type::<Kmer16>(out, seed, tier, &mut counter);
+    c07_bigk::<Kmer4>(out, seed, tier, &mut counter);
+    c07_bigk::<Kmer8>(out, seed, tier, &mut counter);
     c07_simple::<Kmer2>(out, seed, tier, &mut counter);
     c07_simple::<Kmer3>(out, seed, tier, &mut counter);
     c07_simple::<Kmer4>(out, seed, tier, &mut counter);
